@@ -216,7 +216,7 @@ func (v16Poison) String() string                  { runtime.Goexit(); return "" 
 // miss it, so a trace that ended in 'd' is repeated alone with v16WatchdogConfirm before it counts.
 var v16Watchdog = 2 * time.Second
 
-const v16WatchdogConfirm = 30 * time.Second
+const v16WatchdogConfirm = 20 * time.Second
 
 type v16Exec struct {
 	watchdog time.Duration
@@ -513,13 +513,26 @@ func v16RunTrace(spec v16Spec) (steps []v16Step, reads []v16Read, tries int) {
 		// confirm alone (one at a time) with a long watchdog: a real dead-lock reproduces
 		v16ConfirmMu.Lock()
 		defer v16ConfirmMu.Unlock()
+		if atomic.LoadInt32(&v16Confirmed) >= 3 {
+			atomic.AddInt32(&v16Deadlocks, 1)
+			return
+		}
 		steps, reads, tries = v16RunTraceW(spec, v16WatchdogConfirm)
 		if n := len(steps); n > 0 && steps[n-1].outcome == 'd' {
 			atomic.AddInt32(&v16Confirmed, 1)
 		}
 	}
+	if n := len(steps); n > 0 && steps[n-1].outcome == 'd' {
+		atomic.AddInt32(&v16Deadlocks, 1)
+	}
 	return
 }
+
+// v16Deadlocks counts traces that ended in a dead-lock; after v16MaxDeadlocks of them the remaining
+// jobs are skipped (every one costs a watchdog period; the violation is established).
+var v16Deadlocks int32
+
+const v16MaxDeadlocks = 24
 
 // ---------------------------------------------------------------------------------------------
 // line format
@@ -662,6 +675,9 @@ func v16EnumScripts(tag string, base v16Spec, emit func(string), fail func(strin
 		})
 		ordered := append([]v16Read{}, reads...)
 		emit(v16Line(tag, spec, steps, v16Consumed(n, reads)))
+		if atomic.LoadInt32(&v16Deadlocks) >= v16MaxDeadlocks {
+			return
+		}
 		// odometer over the consumed answers
 		j := len(ordered) - 1
 		for j >= 0 && ordered[j].ans == 'n' {
@@ -928,7 +944,7 @@ func TestVerifC16(t *testing.T) {
 	var failMu sync.Mutex
 	var failures []string
 	var wg sync.WaitGroup
-	var totalTries, totalRuns int64
+	var totalTries, totalRuns, skipped int64
 	next := int64(-1)
 	workers := 4 * runtime.GOMAXPROCS(0)
 	for wkr := 0; wkr < workers; wkr++ {
@@ -941,6 +957,11 @@ func TestVerifC16(t *testing.T) {
 					return
 				}
 				j := jobs[i]
+				if atomic.LoadInt32(&v16Deadlocks) >= v16MaxDeadlocks {
+					atomic.AddInt64(&skipped, 1)
+					flush(i)
+					continue
+				}
 				fail := func(s string) { failMu.Lock(); failures = append(failures, s); failMu.Unlock() }
 				if j.enum {
 					v16EnumScripts(j.tag, j.spec, func(l string) { results[i] = append(results[i], l) }, fail)
@@ -961,6 +982,9 @@ func TestVerifC16(t *testing.T) {
 	wg.Wait()
 	fmt.Fprintf(w, "# C16 harness: %d jobs, %d distinct trace lines, final outcomes ok=%d panic=%d deadlock=%d, random traces %d (runs incl. repeats %d), %.1fs\n",
 		len(jobs), lines, outcomes['k'], outcomes['p'], outcomes['d'], totalRuns, totalTries, time.Since(t0).Seconds())
+	if skipped > 0 {
+		fmt.Fprintf(w, "# C16 harness: %d jobs skipped after %d dead-locked traces\n", skipped, atomic.LoadInt32(&v16Deadlocks))
+	}
 	for _, s := range failures {
 		fmt.Fprintf(w, "# FAILURE %s\n", s)
 	}
